@@ -177,8 +177,13 @@ def run(tier="quick", seed=1, replay=None):
         # ---- 4. validate with TLC
         with open(os.path.join(wd, "Trace_Kv.cfg"), "w") as f:
             f.write(TRACE_CFG)
-        v = vf.validate_trace("Trace_Kv", "Trace_Kv.cfg", trace, wd)
         recs = vf.read_ndjson(trace)
+        # the interface-level judge does not need the cell snapshots (they are for Trace_KvCells)
+        slim = os.path.join(wd, "trace_nosnap.ndjson")
+        with open(slim, "w") as f:
+            for r in recs:
+                f.write(json.dumps({k: w for k, w in r.items() if k != "snap"}) + "\n")
+        v = vf.validate_trace("Trace_Kv", "Trace_Kv.cfg", slim, wd, timeout=3600)
         traces = vf.split_traces(recs)
         by_tid = {str(t[1][0].get("t")): t for t in traces}
         beh_by_tid = {str(b["t"]): b for b in behaviours}
@@ -215,7 +220,7 @@ def run(tier="quick", seed=1, replay=None):
             with open(os.path.join(wd, f"Trace_KvCells_{gname}.cfg"), "w") as f:
                 f.write(f"CONSTANTS SeqIds = {{0, 1, 2}} Cells = {cells} MaxBatch = 3 MaxOps = 0 Window = {w} CanShift = {vf.tla_bool(shift)} "
                         f"Overfull = TRUE CodeAsIs = FALSE DefragAsPinned = FALSE\nINIT TInit\nNEXT Step\nPOSTCONDITION Accepted\nCHECK_DEADLOCK FALSE\n")
-            cv = vf.validate_trace("Trace_KvCells", f"Trace_KvCells_{gname}.cfg", gpath, wd, timeout=1800)
+            cv = vf.validate_trace("Trace_KvCells", f"Trace_KvCells_{gname}.cfg", gpath, wd, timeout=3600)
             for _, _, fl in cv["drift"]:
                 for x in fl:
                     cell_drift[x] = cell_drift.get(x, 0) + 1
